@@ -102,6 +102,14 @@ def json_structured(machine, doc):
                 if child_uid in p["variants"]:
                     add("variant.child-arch:not-in-parent", ["payload", "variants", child_uid, "arches"],
                         sorted(set(p["variants"][child_uid]["arches"]) | set(["zz-foreign"])))
+                    # ...and an arch that an ANCESTOR further up (or any other variant of the compose) has, but the parent lacks
+                    elsewhere = sorted(set(a for w in p["variants"].values() for a in w.get("arches", [])) - set(v.get("arches", [])))
+                    for a in elsewhere[:4]:
+                        add("variant.child-arch:not-in-parent-but-elsewhere", ["payload", "variants", child_uid, "arches"],
+                            sorted(set(p["variants"][child_uid]["arches"]) | set([a])))
+                    for a in pools.foreign_arches(v.get("arches", []))[1:3]:
+                        add("variant.child-arch:not-in-parent-lookalike", ["payload", "variants", child_uid, "arches"],
+                            sorted(set(p["variants"][child_uid]["arches"]) | set([a])))
             if v.get("type") == "layered-product":
                 add("variant.release:deleted", base + ["release"], _DEL)
                 add("variant.release.version:domain", base + ["release", "version"], "1.")
